@@ -112,6 +112,7 @@ MUTANTS = [
     ("C19", "le-instead-of-lt", "typhon/retrieval/scores.py", "    abs_2 = (1.0 - taus) * np.abs(y_tau - y_test)", "    abs_2 = (1.0 - taus) * np.abs(y_tau - y_test) + (y_tau == y_test) * 1.0"),
     ("C19", "shape-error-swallowed", "typhon/retrieval/scores.py", "        raise ValueError(\n            \"Shape of y_test is incompatible with y_tau and taus.\")", "        y_test = y_test.ravel()[:n].reshape(n, 1)"),
     ("C19", "mean-over-wrong-axis", "typhon/retrieval/scores.py", "np.nanmean(quantile_score(y_tau, y_test, taus), axis=0)", "np.nanmean(quantile_score(y_tau, y_test, taus), axis=-1)"),
+    ("C14", "p2h-abs-layer-depth", "typhon/physics/atmosphere.py", "    layer_depth = np.diff(p)", "    layer_depth = -np.abs(np.diff(p))"),
     ("C14", "isa-clamped-beyond-table", "typhon/physics/atmosphere.py", "    return interp1d(z_ref, temp + constants.K, fill_value='extrapolate')(z)", "    return np.interp(z, z_ref[::1] if z_ref[0] < z_ref[-1] else z_ref[::-1], (temp + constants.K)[::1] if z_ref[0] < z_ref[-1] else (temp + constants.K)[::-1])"),
     ("C14", "isa-level-typo", "typhon/physics/atmosphere.py", "    h = np.array([-610, 11000, 20000, 32000, 47000, 51000, 71000, 84852])", "    h = np.array([-610, 11000, 20000, 32000, 47000, 52000, 71000, 84852])"),
     ("C14", "p2h-default-uses-height-addressing", "typhon/physics/atmosphere.py", "        T = standard_atmosphere(p, coordinates='pressure')", "        T = standard_atmosphere(p)"),
@@ -124,6 +125,8 @@ MUTANTS = [
     ("C14", "height-no-layer-mean", "typhon/physics/atmosphere.py", "    rho_layer = 0.5 * (rho[:-1] + rho[1:])", "    rho_layer = rho[:-1]"),
     ("C14", "height-not-from-zero", "typhon/physics/atmosphere.py", "    return np.hstack([0, z])", "    return np.hstack([z[0], z])"),
     ("C14", "crh-inverted", "typhon/physics/atmosphere.py", "        crh = ivw/ivws", "        crh = ivws/ivw"),
+    ("C08", "snell-complex-typed-real-index", "typhon/physics/em.py", "        theta2 = np.arcsin(\n            np.real(n1) * np.sin(np.deg2rad(theta1)) / np.real(n2))", "        theta2 = np.arcsin(n1 * np.sin(np.deg2rad(theta1)) / n2)"),
+    ("C08", "rj-int64-square", "typhon/physics/em.py", "    return 2 * f**2 * k * T / c**2", "    return 2 * np.square(f) * k * T / c**2"),
     ("C08", "no-grid-reversal", "typhon/physics/em.py", "    return perm[::-1, ...], lam_grid[::-1]", "    return perm, lam_grid"),
     ("C08", "jacobian-f-not-f2", "typhon/physics/em.py", "    perm = perhz * f_grid.reshape(shape)**2 / c", "    perm = perhz * f_grid.reshape(shape) / c"),
     ("C08", "perwn-divides", "typhon/physics/em.py", "    perwn = perhz * c", "    perwn = perhz / c"),
